@@ -29,7 +29,7 @@ import (
 // both) and must keep the eight module stores byte-identical and return the same validator updates.
 func init() {
 	Register("exportimport", runExportImport)
-	RegisterPlan(Plan{Prop: "C18", Engine: "exportimport", Quick: 48, Thorough: 1200, Level: "exploration", MinCases: 24,
+	RegisterPlan(Plan{Prop: "C18", Engine: "exportimport", Quick: 480, Thorough: 6000, Level: "exploration", MinCases: 24,
 		Rule: "states reached by 30-150 steps of the ledger profiles (default, exit, keys, queues, slash, power) and by oracle histories stopped at a random block (mid-epoch, mid oracle window, with pending undelegations, holds, opt-outs, key replacements, queue entries); after the commit: (1) export does not fail, (2) each of the 8 module documents passes its ValidateGenesis, (3) InitChain of a fresh application with the export succeeds, (4) the 8 module stores of the fresh chain equal the original's byte for byte, (5) exporting the fresh chain yields the same 8 documents, (6) original and fresh chain run 4-5 further epochs with identical block times; after every block the 8 module stores and the validator updates are compared. Distinct = <workload family, features present in the exported state (pending undelegations, holds, opt-outs, pending key removals, open oracle rounds, slashed pools, NST stakers), stage reached>."})
 }
 
